@@ -4,6 +4,12 @@ import SluProofs.Lemmas.Ilu
 import SluProofs.Lemmas.IluFactor
 import SluProofs.Props.C02
 import SluProofs.Props.C14
+import Slu.Model.IluDrop
+import SluProofs.Lemmas.IluDrop
+import SluProofs.Lemmas.QSelect
+import Mathlib.Tactic.Ring
+import Mathlib.Tactic.Linarith
+import Mathlib.Algebra.Order.Field.Basic
 /-
 C15 — Incomplete LU never breaks down and is exact when dropping is off.
 
@@ -654,3 +660,437 @@ example := iluFactor_udiag_nonzero_full exIluZ exDropUL false
   (fun _ _ _ => by norm_num [exIluZ, exIlu]) (fun _ j k => by simp only [exDropUL]; split <;> norm_num)
 
 end Slu.Ilu
+
+/-! ## The dropping rules (`ilu_[sd]drop_row`, Slu/Model/IluDrop.lean) — no longer an oracle
+
+`dropBlock` is the two dropping loops and the diagonal compensation of `ilu_?drop_row` on the `m x n` block of a
+supernode (rows in storage order, `n` rows of the diagonal block first); `(dropBlock ..).1` is the loop state on exit
+(`r` rows dropped, kept rows at positions `0..m1`, ghost map `orig` = original position of the row stored at each
+position, ghost `trace` = (original position, norm consulted) of every dropped row, newest first),
+`(dropBlock ..).2.2.1` the rows after the compensation.  All statements hold for EVERY scalar instance (`opsF64`,
+`opsF32` — the executed bit mirrors — and `opsRat`), every norm, rule, MILU mode, tolerance and quota. -/
+namespace Slu.IluDrop
+open Slu Slu.Ilu
+
+section block
+variable {K R T : Type} [Inhabited K] [Inhabited R] [LT R] [DecidableLT R]
+variable (ops : DropOps K R T) (rule : Rule) (milu : Milu) (nrm : Nrm) (dropTol : T) (quota : Int) (alpha : R) (fillTol : T)
+variable (m n : Nat) (rows : Array (Array K)) (subs : Array Int)
+
+/-- **C15 (drop_row: the value returned).** The number of rows dropped plus the number of rows kept (positions
+`0..m1`) is the number of rows of the supernode; one trace entry per dropped row; at least the `n` rows of the diagonal
+block are left. -/
+theorem dropRow_count (hn : 1 ≤ n) (hnm : n < m) (hr : rows.size = m) (hs : subs.size = m) :
+    (dropBlock ops rule milu nrm dropTol quota alpha fillTol m n rows subs).1.r
+      + ((dropBlock ops rule milu nrm dropTol quota alpha fillTol m n rows subs).1.m1 + 1) = m ∧
+    (dropBlock ops rule milu nrm dropTol quota alpha fillTol m n rows subs).1.trace.length
+      = (dropBlock ops rule milu nrm dropTol quota alpha fillTol m n rows subs).1.r ∧
+    n ≤ (dropBlock ops rule milu nrm dropTol quota alpha fillTol m n rows subs).1.m1 + 1 := by
+  have h := (dropBlock_inv ops rule milu nrm dropTol quota alpha fillTol m n rows subs hn hnm hr hs).1
+  exact ⟨by have := h.cnt; omega, h.tlen, h.n_le⟩
+
+/-- **C15 (drop_row: the rows of the diagonal block are never dropped, never moved).** Position `p < n` is a kept
+position, still holds original row `p` with its subscript, no dropped row is a row of the diagonal block, and outside
+its diagonal entry the row is unchanged by the compensation. -/
+theorem dropRow_diag_block_kept (hn : 1 ≤ n) (hnm : n < m) (hr : rows.size = m) (hs : subs.size = m) (p : Nat) (hp : p < n) :
+    p ≤ (dropBlock ops rule milu nrm dropTol quota alpha fillTol m n rows subs).1.m1 ∧
+    (dropBlock ops rule milu nrm dropTol quota alpha fillTol m n rows subs).1.orig[p]! = p ∧
+    (dropBlock ops rule milu nrm dropTol quota alpha fillTol m n rows subs).1.subs[p]! = subs[p]! ∧
+    (∀ e ∈ (dropBlock ops rule milu nrm dropTol quota alpha fillTol m n rows subs).1.trace, e.1 ≠ p) ∧
+    (∀ j, j ≠ p → ((dropBlock ops rule milu nrm dropTol quota alpha fillTol m n rows subs).2.2.1[p]!)[j]! = (rows[p]!)[j]!) := by
+  have h := (dropBlock_inv ops rule milu nrm dropTol quota alpha fillTol m n rows subs hn hnm hr hs).1
+  have hle : p ≤ (dropBlock ops rule milu nrm dropTol quota alpha fillTol m n rows subs).1.m1 := by have := h.n_le; omega
+  have hk := h.kept p hle
+  rw [h.diag p hp] at hk
+  refine ⟨hle, h.diag p hp, hk.2.1, fun e he heq => ?_, fun j hj => ?_⟩
+  · have := (trace_not_kept h e he).1; omega
+  · rw [dropBlock_rows]
+    split
+    · rw [hk.1]
+    · rw [diagFix_get ops milu alpha fillTol m n _ h.rsize hnm p]
+      split
+      · unfold fixedRow
+        split
+        · rw [hk.1]
+        · rw [get!_set_ne _ _ _ _ (fun e => hj e.symm), hk.1]
+      · rw [hk.1]
+
+/-- **C15 (drop_row: the kept rows are original rows, each at most once, with their values).** Every kept position
+`p ≤ m1` holds the original row `orig p < m` (subscript and, below the diagonal block, all values bit for bit; rows of
+the diagonal block: `dropRow_diag_block_kept`), distinct kept positions hold distinct original rows, and none of them
+is a dropped row. -/
+theorem dropRow_kept_subset (hn : 1 ≤ n) (hnm : n < m) (hr : rows.size = m) (hs : subs.size = m) (p : Nat)
+    (hp : p ≤ (dropBlock ops rule milu nrm dropTol quota alpha fillTol m n rows subs).1.m1) :
+    (dropBlock ops rule milu nrm dropTol quota alpha fillTol m n rows subs).1.orig[p]! < m ∧
+    (dropBlock ops rule milu nrm dropTol quota alpha fillTol m n rows subs).1.subs[p]!
+      = subs[(dropBlock ops rule milu nrm dropTol quota alpha fillTol m n rows subs).1.orig[p]!]! ∧
+    (n ≤ p → (dropBlock ops rule milu nrm dropTol quota alpha fillTol m n rows subs).2.2.1[p]!
+      = rows[(dropBlock ops rule milu nrm dropTol quota alpha fillTol m n rows subs).1.orig[p]!]!) ∧
+    (∀ q, q ≤ (dropBlock ops rule milu nrm dropTol quota alpha fillTol m n rows subs).1.m1 →
+      (dropBlock ops rule milu nrm dropTol quota alpha fillTol m n rows subs).1.orig[q]!
+        = (dropBlock ops rule milu nrm dropTol quota alpha fillTol m n rows subs).1.orig[p]! → q = p) ∧
+    (∀ e ∈ (dropBlock ops rule milu nrm dropTol quota alpha fillTol m n rows subs).1.trace,
+      e.1 ≠ (dropBlock ops rule milu nrm dropTol quota alpha fillTol m n rows subs).1.orig[p]!) := by
+  have h := (dropBlock_inv ops rule milu nrm dropTol quota alpha fillTol m n rows subs hn hnm hr hs).1
+  have hk := h.kept p hp
+  have hc := h.cnt
+  refine ⟨hk.2.2, hk.2.1, fun hnp => ?_, fun q hq heq => h.inj q p (by omega) (by omega) heq, fun e he heq => ?_⟩
+  · rw [dropBlock_rows]
+    split
+    · exact hk.1
+    · rw [diagFix_get ops milu alpha fillTol m n _ h.rsize hnm p]
+      have : ¬ (milu ≠ Milu.silu ∧ p < n) := by omega
+      rw [if_neg this]; exact hk.1
+  · exact (trace_not_kept h e he).2 p hp heq.symm
+
+/-- **C15 (drop_row: the thresholds).** There is a secondary threshold `tol` such that every dropped row was either
+dropped by the first loop — then the norm recorded IS the norm of that row and it is `< drop_tol` (strictly) — or by
+the second loop with the norm CONSULTED `<= tol`.  (The consulted norm `temp[i]` of a row that was moved by the second
+loop is the norm of another row: `dropRow_secondary_uses_neighbour_norm` below.) -/
+theorem dropRow_threshold (hn : 1 ≤ n) (hnm : n < m) (hr : rows.size = m) (hs : subs.size = m) :
+    ∃ tol, ∀ e ∈ (dropBlock ops rule milu nrm dropTol quota alpha fillTol m n rows subs).1.trace,
+      (e.2 = ops.rowNorm nrm rows[e.1]! ∧ ops.ltTol e.2 dropTol = true) ∨ ops.leTol e.2 tol = true :=
+  (dropBlock_inv ops rule milu nrm dropTol quota alpha fillTol m n rows subs hn hnm hr hs).2
+
+/-- **C15 (drop_row: first loop only).** Without a secondary rule bit nothing is dropped unless `DROP_BASIC` is set, and
+every dropped row has its own norm strictly below `drop_tol`. -/
+theorem dropRow_threshold_basic (hn : 1 ≤ n) (hnm : n < m) (hr : rows.size = m) (hs : subs.size = m) (hsec : rule.secondary = false) :
+    (∀ e ∈ (dropBlock ops rule milu nrm dropTol quota alpha fillTol m n rows subs).1.trace,
+      e.2 = ops.rowNorm nrm rows[e.1]! ∧ ops.ltTol e.2 dropTol = true) ∧
+    (rule.basic = false → (dropBlock ops rule milu nrm dropTol quota alpha fillTol m n rows subs).1.r = 0) := by
+  have h0 := inv_init ops milu m n hnm rows subs hr hs (Array.replicate m ops.zeroR) ops.zeroR ops.oneR
+  obtain ⟨_, q1, r1⟩ := pass1_inv ops nrm milu rule.basic dropTol m n rows subs hn (m - n) n _ (Nat.le_refl _) h0 (by intro e he; simp at he)
+  have hsec' : ∀ s : DSt K R, (secondary ops rule milu quota m n s).1 = s := by
+    intro s; unfold secondary; simp [hsec]
+  have hb : (dropBlock ops rule milu nrm dropTol quota alpha fillTol m n rows subs).1 =
+      pass1 ops nrm milu rule.basic dropTol m (m - n) n
+        { rows := rows, subs := subs, temp := Array.replicate m ops.zeroR, m1 := m - 1, r := 0, dmax := ops.zeroR, dmin := ops.oneR,
+          orig := Array.range m } := by
+    unfold dropBlock; dsimp only; split <;> exact hsec' _
+  rw [hb]
+  exact ⟨q1, r1⟩
+
+/-- **C15 (drop_row: the MILU compensation).** Once a row has been dropped, row `m-1` of the block holds the
+accumulated compensation `accOf` of the dropped rows in the order they were dropped (first one copied — through `fabs`
+under SMILU_3 —, later ones added: signed under SMILU_1/2, moduli under SMILU_3; this is the exact order of the
+floating-point additions), and the diagonal entry of column `j` becomes `diagComp milu alpha fill_tol (old diagonal)
+(accumulator entry j)` unless that accumulator entry is zero or MILU is off. -/
+theorem dropRow_milu_sum (hn : 1 ≤ n) (hnm : n < m) (hr : rows.size = m) (hs : subs.size = m)
+    (hpos : 0 < (dropBlock ops rule milu nrm dropTol quota alpha fillTol m n rows subs).1.r) :
+    (dropBlock ops rule milu nrm dropTol quota alpha fillTol m n rows subs).1.rows[m - 1]! =
+      accOf ops milu ((dropBlock ops rule milu nrm dropTol quota alpha fillTol m n rows subs).1.trace.reverse.map fun e => rows[e.1]!) ∧
+    ∀ j, j < n → j < (rows[j]!).size →
+      ((dropBlock ops rule milu nrm dropTol quota alpha fillTol m n rows subs).2.2.1[j]!)[j]! =
+        if milu = .silu ∨ ops.isZero (((dropBlock ops rule milu nrm dropTol quota alpha fillTol m n rows subs).1.rows[m - 1]!)[j]!) = true
+        then (rows[j]!)[j]!
+        else (ops.diagComp milu alpha fillTol ((rows[j]!)[j]!)
+              (((dropBlock ops rule milu nrm dropTol quota alpha fillTol m n rows subs).1.rows[m - 1]!)[j]!)).1 := by
+  have h := (dropBlock_inv ops rule milu nrm dropTol quota alpha fillTol m n rows subs hn hnm hr hs).1
+  refine ⟨h.acc hpos, fun j hj hjs => ?_⟩
+  have hle : j ≤ (dropBlock ops rule milu nrm dropTol quota alpha fillTol m n rows subs).1.m1 := by have := h.n_le; omega
+  have hk := (h.kept j hle).1
+  rw [h.diag j hj] at hk
+  rw [dropBlock_rows, if_neg (by omega), diagFix_get ops milu alpha fillTol m n _ h.rsize hnm j]
+  by_cases hm : milu = .silu
+  · rw [if_neg (by simp [hm]), if_pos (Or.inl hm), hk]
+  · simp only [hm, ne_eq, not_false_eq_true, hj, and_self, if_true, false_or]
+    unfold fixedRow
+    split
+    · rw [hk]
+    · rw [hk, get!_set_eq _ _ _ hjs]
+
+end block
+
+/-- the compensation of one column from the entries of the dropped rows in that column: the signed sum under SMILU_1
+and SMILU_2, the sum of the moduli under SMILU_3 (`other` under SILU, where the row is not used) -/
+def colComp (milu : Milu) (vals : List Rat) (other : Rat) : Rat :=
+  match milu with
+  | .smilu1 | .smilu2 => vals.sum
+  | .smilu3 => (vals.map rabs).sum
+  | .silu => other
+
+/-- **C15 (drop_row: the MILU compensation in exact arithmetic).** Over `Rat`, with every row of the block of length
+`n`: once a row has been dropped, entry `j` of the accumulator row `m-1` is the SIGNED sum of the entries `j` of the
+dropped rows under SMILU_1 and SMILU_2, and the sum of their MODULI under SMILU_3 (dropped rows listed by the ghost
+trace: original positions, all `< m`, none in the diagonal block, none kept). -/
+theorem dropRow_milu_sum_rat (nrm2 : Array Rat → Rat) (rule : Rule) (milu : Milu) (nrm : Nrm) (dropTol : Rat) (quota : Int)
+    (alpha fillTol : Rat) (m n : Nat) (rows : Array (Array Rat)) (subs : Array Int)
+    (hn : 1 ≤ n) (hnm : n < m) (hr : rows.size = m) (hs : subs.size = m) (hrows : ∀ i, i < m → (rows[i]!).size = n)
+    (hpos : 0 < (dropBlock (opsRat nrm2) rule milu nrm dropTol quota alpha fillTol m n rows subs).1.r) (j : Nat) (hj : j < n) :
+    ((dropBlock (opsRat nrm2) rule milu nrm dropTol quota alpha fillTol m n rows subs).1.rows[m - 1]!)[j]! =
+      colComp milu
+        ((dropBlock (opsRat nrm2) rule milu nrm dropTol quota alpha fillTol m n rows subs).1.trace.reverse.map fun e => (rows[e.1]!)[j]!)
+        (((dropBlock (opsRat nrm2) rule milu nrm dropTol quota alpha fillTol m n rows subs).1.rows[m - 1]!)[j]!) := by
+  have h := (dropBlock_inv (opsRat nrm2) rule milu nrm dropTol quota alpha fillTol m n rows subs hn hnm hr hs).1
+  have hpos' : 0 < (dropBlock (opsRat nrm2) rule milu nrm dropTol quota alpha fillTol m n rows subs).1.trace.length := by
+    rw [h.tlen]; exact hpos
+  have hacc := h.acc hpos
+  clear hpos
+  generalize (dropBlock (opsRat nrm2) rule milu nrm dropTol quota alpha fillTol m n rows subs).1 = s at h hpos' hacc ⊢
+  have hsz : ∀ y ∈ (s.trace.reverse.map fun e => rows[e.1]!), y.size = n := by
+    intro y hy
+    obtain ⟨e, he, rfl⟩ := List.mem_map.mp hy
+    exact hrows e.1 (trace_lt h e (List.mem_reverse.mp he))
+  cases hl : (s.trace.reverse.map fun e => rows[e.1]!) with
+  | nil =>
+    have : (s.trace.reverse.map fun e => rows[e.1]!).length = s.trace.length := by simp
+    rw [hl] at this; simp at this; omega
+  | cons x xs =>
+    rw [hl] at hsz
+    have key := accOf_rat nrm2 milu n j hj x xs hsz
+    have hmap1 : (s.trace.reverse.map fun e => (rows[e.1]!)[j]!) = (x :: xs).map fun y => y[j]! := by
+      rw [← hl, List.map_map]; rfl
+    unfold colComp
+    cases milu
+    · rfl
+    · rw [hacc, hl, key, hmap1]
+    · rw [hacc, hl, key, hmap1]
+    · rw [hacc, hl, key, hmap1, List.map_map]; rfl
+
+/-- **C15 (drop_row: what the compensation does to the diagonal, real files).** Over `Rat`, for `alpha ≤ 1` (every
+`ILU_MILU_Dim > 0`) and a nonzero accumulated value `t`: in all three MILU modes the diagonal entry is multiplied by
+`1 + min(|t|, 2(1 - alpha))` — the SIGN of the dropped sum is lost (`t * omega ≥ 0` for either sign of `t`) — and the
+replacement branch `t == -1` of SMILU_1 (`nzp`, hook H2 phase 2) is never taken. -/
+theorem diagComp_rat (nrm2 : Array Rat → Rat) (milu : Milu) (hm : milu ≠ .silu) (alpha fillTol d t : Rat) (ha : alpha ≤ 1) (ht : t ≠ 0) :
+    (opsRat nrm2).diagComp milu alpha fillTol d t = (d * (1 + min |t| (2 * (1 - alpha))), false) := by
+  have hc : 0 ≤ 2 * (1 - alpha) := by linarith
+  have key : t * (if t > 0 then (if 2 * (1 - alpha) / t < 1 then 2 * (1 - alpha) / t else 1)
+      else (if 2 * (1 - alpha) / t > -1 then 2 * (1 - alpha) / t else -1)) = min |t| (2 * (1 - alpha)) := by
+    rcases lt_or_gt_of_ne ht with hneg | hpos
+    · have h1 : ¬ t > 0 := by linarith
+      rw [if_neg h1, abs_of_neg hneg]
+      by_cases h2 : 2 * (1 - alpha) / t > -1
+      · rw [if_pos h2, mul_div_cancel₀ _ ht]
+        have : 2 * (1 - alpha) < -t := by
+          have := (lt_div_iff_of_neg hneg).mp (show -1 < 2 * (1 - alpha) / t from h2)
+          linarith
+        rw [min_eq_right (le_of_lt this)]
+      · rw [if_neg h2]
+        have : -t ≤ 2 * (1 - alpha) := by
+          by_contra hcon
+          have hcon : 2 * (1 - alpha) < -t := not_le.mp hcon
+          exact h2 ((lt_div_iff_of_neg hneg).mpr (by linarith))
+        rw [min_eq_left this]; ring
+    · rw [if_pos hpos, abs_of_pos hpos]
+      by_cases h2 : 2 * (1 - alpha) / t < 1
+      · rw [if_pos h2, mul_div_cancel₀ _ ht]
+        have : 2 * (1 - alpha) < t := by rwa [div_lt_one hpos] at h2
+        rw [min_eq_right (le_of_lt this)]
+      · rw [if_neg h2]
+        have : t ≤ 2 * (1 - alpha) := by
+          by_contra hcon
+          exact h2 ((div_lt_one hpos).mpr (not_le.mp hcon))
+        rw [min_eq_left this]; ring
+  have hnn : 0 ≤ min |t| (2 * (1 - alpha)) := le_min (abs_nonneg t) hc
+  cases milu
+  · exact absurd rfl hm
+  · simp only [opsRat]
+    rw [key]
+    have : (min |t| (2 * (1 - alpha)) != -1) = true := by
+      simp only [bne_iff_ne, ne_eq]; intro h; linarith
+    simp [this]
+  · simp only [opsRat]
+    rw [key]
+    have : rabs (min |t| (2 * (1 - alpha))) = min |t| (2 * (1 - alpha)) := by
+      unfold rabs; rw [if_neg (by linarith)]
+    rw [this]
+  · simp only [opsRat]
+    rw [key]
+
+/-! ### a concrete supernode: rows dropped in both loops, and the defect of the second loop -/
+
+/-- one column, six rows: the diagonal 4, then 1/4, 3, 1, 5, 2; subscripts 10..15 -/
+def exRows : Array (Array Rat) := #[#[4], #[1/4], #[3], #[1], #[5], #[2]]
+def exSubs : Array Int := #[10, 11, 12, 13, 14, 15]
+def exRule : Rule := { nodrop := false, basic := true, secondary := true, interp := false }
+/-- max-norm, `drop_tol = 1/2`, `quota = 3`, `alpha = 1/2`, `fill_tol = 1/100` -/
+def exBlock (milu : Milu) := dropBlock (opsRat fun _ => 0) exRule milu .inf (1/2 : Rat) 3 (1/2 : Rat) (1/100 : Rat) 6 1 exRows exSubs
+
+/-- the hypotheses of the `dropRow_*` theorems hold for it, and rows are dropped in BOTH loops: the first loop drops
+original row 1 (norm 1/4 < 1/2), `qselect` then returns `tol = 2` (rank 2 of the norms 2, 3, 1, 5) and the second loop
+drops two more rows; 3 rows are returned as dropped, positions 0..2 are kept; the accumulator row is 1/4 + 2 + 5 and
+the diagonal becomes `4 * (1 + min(29/4, 2(1 - 1/2))) = 8` under SMILU_1. -/
+example : (exBlock .smilu1).1.r = 3 ∧ (exBlock .smilu1).1.m1 = 2 ∧ (exBlock .smilu1).2.1.tol = some 2 ∧
+    (exBlock .smilu1).2.1.usedSelect = true ∧
+    (exBlock .smilu1).1.trace = [(4, 1), (5, 2), (1, 1/4)] ∧
+    (exBlock .smilu1).1.rows[5]! = #[29/4] ∧ (exBlock .smilu1).2.2.1[0]! = #[8] ∧
+    ((exBlock .smilu1).1.subs.extract 0 3) = #[10, 13, 12] := by
+  decide +kernel
+
+example := dropRow_count (opsRat fun _ => 0) exRule .smilu1 .inf (1/2 : Rat) 3 (1/2 : Rat) (1/100 : Rat) 6 1 exRows exSubs
+  (by decide) (by decide) rfl rfl
+example := dropRow_milu_sum (opsRat fun _ => 0) exRule .smilu1 .inf (1/2 : Rat) 3 (1/2 : Rat) (1/100 : Rat) 6 1 exRows exSubs
+  (by decide) (by decide) rfl rfl (by decide +kernel)
+
+example := dropRow_milu_sum_rat (fun _ => 0) exRule .smilu1 .inf (1/2 : Rat) 3 (1/2 : Rat) (1/100 : Rat) 6 1 exRows exSubs
+  (by decide) (by decide) rfl rfl (by decide) (by decide +kernel) 0 (by decide)
+example := diagComp_rat (fun _ => 0) .smilu1 (by decide) (1/2) (1/100) 4 (29/4) (by decide +kernel) (by decide +kernel)
+
+/-- **C15 (a defect of `ilu_?drop_row`, reproduced on the C code by findings/D15_drop_row_neighbour_norm.c).**
+The second loop stores, for the row it moves from position `m1` to position `i`, the norm `temp[m1-1]` (the index is
+taken AFTER `m1--`, ilu_ddrop_row.c:257-259) instead of `temp[m1]`.  On the block above the secondary threshold is 2;
+the routine drops original row 4, whose norm is 5 > 2, because the norm it consulted was 1 (the norm of original row 3),
+and it keeps original row 3 (norm 1 ≤ 2) at position 1.  So "every row dropped by the second loop has norm <= tol"
+is FALSE of the code; what is true is `dropRow_threshold` (the norm CONSULTED is <= tol). -/
+theorem dropRow_secondary_uses_neighbour_norm :
+    (exBlock .silu).2.1.tol = some 2 ∧
+    ((4, 1) ∈ (exBlock .silu).1.trace) ∧ (opsRat fun _ => 0).rowNorm .inf exRows[4]! = 5 ∧
+    (exBlock .silu).1.orig[1]! = 3 ∧ 1 ≤ (exBlock .silu).1.m1 ∧ (opsRat fun _ => 0).rowNorm .inf exRows[3]! = 1 := by
+  decide +kernel
+
+end Slu.IluDrop
+
+/-! ## The modelled rule as an instance of the drop oracle of `iluFactor` -/
+namespace Slu.Ilu
+open Slu.IluDrop Slu.LU
+
+/-- what the caller `[sd]gsitrf` decides, and the model of the factorization as a whole does not contain (supernode
+partition, symbolic structure, quota formula, dynamic tolerance): after column `j`, drop rows of the supernode
+`first..last` (`last ≤ j`) whose rows below the diagonal block are `below` (storage order), with these arguments -/
+structure DropCall where
+  first : Nat
+  last : Nat
+  below : List Nat
+  rule : Rule
+  nrm : Nrm
+  dropTol : Rat
+  quota : Int
+  alpha : Rat
+  fillTol : Rat
+
+/-- the supernode `first..last` of the specification-level state, as the `m x n` block `ilu_?drop_row` works on: the
+rows of the diagonal block are the pivot rows (strict lower part: L, diagonal and above: U, as SuperLU stores a
+supernode), then the rows `below` with their L entries -/
+def blockOf (st : IluSt Rat) (c : DropCall) : Array (Array Rat) × Array Int :=
+  let n := c.last + 1 - c.first
+  let diagRows := (List.range n).map fun k => st.piv.getD (c.first + k) 0
+  let lrow (i : Nat) : Array Rat := (Array.range n).map fun t => (st.L.getD (c.first + t) #[]).get i
+  let drow (k : Nat) : Array Rat := (Array.range n).map fun t =>
+    if t < k then (st.L.getD (c.first + t) #[]).get (st.piv.getD (c.first + k) 0) else (st.U.getD (c.first + t) #[]).getD (c.first + k) 0
+  (((List.range n).map drow ++ c.below.map lrow).toArray, (List.map Int.ofNat (diagRows ++ c.below)).toArray)
+
+/-- `ilu_?drop_row` (the model `dropBlock`, exact arithmetic) as a `DropOracle`: the L entries it zeroes are the entries
+of the dropped rows in the columns of the supernode, the diagonal factors are its MILU compensation
+(`diagComp .. 1 t = 1 + t*omega`); U entries are not touched by this routine -/
+def dropRowOracle (nrm2 : Array Rat → Rat) (milu : Milu) (call : IluSt Rat → Nat → Option DropCall) : DropOracle Rat :=
+  { dropU := fun _ _ _ _ _ => false
+    dropL := fun st j t i =>
+      match call st j with
+      | none => false
+      | some c =>
+        let b := blockOf st c
+        let o := dropBlock (opsRat nrm2) c.rule milu c.nrm c.dropTol c.quota c.alpha c.fillTol b.1.size (c.last + 1 - c.first) b.1 b.2
+        decide (c.first ≤ t ∧ t ≤ c.last) && (o.1.trace.map fun e => b.2[e.1]!).contains (i : Int)
+    diagMul := fun st j k =>
+      match call st j with
+      | none => 1
+      | some c =>
+        let b := blockOf st c
+        let o := dropBlock (opsRat nrm2) c.rule milu c.nrm c.dropTol c.quota c.alpha c.fillTol b.1.size (c.last + 1 - c.first) b.1 b.2
+        if c.first ≤ k ∧ k ≤ c.last ∧ o.1.r ≠ 0 ∧ milu ≠ .silu then
+          let t := (o.1.rows[b.1.size - 1]!)[k - c.first]!
+          if t = 0 then 1 else ((opsRat nrm2).diagComp milu c.alpha c.fillTol 1 t).1
+        else 1 }
+
+/-- **C15 (the whole-factorization identity for the MODELLED row-dropping rule).** `iluFactor_identity_with_error`
+instantiated with `dropRowOracle`: whatever supernodes, structures, quotas and tolerances the caller passes
+(`call`), with the rows chosen by the model of `ilu_?drop_row` (norms, both loops, qselect / interpolation, the
+neighbour-norm behaviour included) and its diagonal compensation, `L̃·Ũ = Pr·A·Pc + E` entrywise. -/
+theorem iluFactor_identity_dropRow (F : Flavour Rat Rat) (P : IluParams Rat Rat) (nrm2 : Array Rat → Rat)
+    (call : IluSt Rat → Nat → Option DropCall) (hcol : ∀ j, (P.col j).size = P.m) (b : Bool)
+    (h : (iluFactor F P (dropRowOracle nrm2 P.milu call) b).fail = 0) (j : Nat) (hj : j < P.n) (i : Nat) (hi : i < P.m) :
+    ((List.range (j + 1)).map fun k =>
+        ((iluFactor F P (dropRowOracle nrm2 P.milu call) b).U.getD j #[]).getD k 0 *
+          ((iluFactor F P (dropRowOracle nrm2 P.milu call) b).L.getD k #[]).get i).sum =
+      (P.col j).get i + ((iluFactor F P (dropRowOracle nrm2 P.milu call) b).E.getD j #[]).get i :=
+  iluFactor_identity_with_error magLaws_rat F P (dropRowOracle nrm2 P.milu call) hcol b h j hj i hi
+
+/-- the rows the oracle drops are rows BELOW the diagonal block of the supernode, and every one of them met the test of
+the loop that dropped it (`dropRow_diag_block_kept`, `dropRow_threshold` applied to the block of the state) -/
+theorem dropRowOracle_rows (nrm2 : Array Rat → Rat) (milu : Milu) (c : DropCall) (st : IluSt Rat)
+    (hn : c.first ≤ c.last) (hb : c.below ≠ []) :
+    let b := blockOf st c
+    let o := dropBlock (opsRat nrm2) c.rule milu c.nrm c.dropTol c.quota c.alpha c.fillTol b.1.size (c.last + 1 - c.first) b.1 b.2
+    (∀ e ∈ o.1.trace, c.last + 1 - c.first ≤ e.1) ∧
+    ∃ tol, ∀ e ∈ o.1.trace, (e.2 = (opsRat nrm2).rowNorm c.nrm b.1[e.1]! ∧ e.2 < c.dropTol) ∨ e.2 ≤ tol := by
+  intro b o
+  have hsz : b.1.size = (c.last + 1 - c.first) + c.below.length := by simp [b, blockOf]
+  have hsz2 : b.2.size = b.1.size := by
+    rw [hsz]; simp only [b, blockOf, List.size_toArray, List.length_map, List.length_append, List.length_range]
+  have hlen : 0 < c.below.length := List.length_pos_of_ne_nil hb
+  have hinv := dropBlock_inv (opsRat nrm2) c.rule milu c.nrm c.dropTol c.quota c.alpha c.fillTol b.1.size (c.last + 1 - c.first) b.1 b.2
+    (by omega) (by omega) rfl hsz2
+  refine ⟨fun e he => (trace_not_kept hinv.1 e he).1, ?_⟩
+  obtain ⟨tol, ht⟩ := hinv.2
+  refine ⟨tol, fun e he => ?_⟩
+  rcases ht e he with h | h
+  · exact Or.inl ⟨h.1, by simpa [opsRat] using h.2⟩
+  · exact Or.inr (by simpa [opsRat] using h)
+
+end Slu.Ilu
+
+/-! ## `[sd]qselect` (Slu/Model/QSelect.lean) -/
+namespace Slu.QSelect
+
+/-- **C15 (qselect terminates).** For every `<` that is asymmetric — IEEE `<` on `double`/`float` with NaN (every
+comparison with NaN false), and `Rat` — every array, every `1 ≤ n ≤ A.size` and every `k` (any integer: it is clamped),
+the model of `[sd]qselect` (the routine as it is since the `fix:` commit fba5c82) returns: the explicit fuel `n + 1` of
+the outer loop and `n` of the partition loop is never exhausted. -/
+theorem qselect_terminates {R : Type} [Inhabited R] [LT R] [DecidableLT R] (hasym : ∀ a b : R, a < b → ¬ b < a)
+    (A : Array R) (n : Nat) (k : Int) (hn : 1 ≤ n) (hA : n ≤ A.size) : (qselect n A k).isSome = true := by
+  obtain ⟨v, A', e, _⟩ := qsel_some hasym (n + 1) A 0 n (clampK n k) hn (by omega) (by omega) (clampK_lt n k hn)
+  unfold qselect; rw [e]; rfl
+
+/-- **C15 (qselect permutes).** The array afterwards is a permutation of the array before (ties, NaN included), and
+nothing at or beyond index `n` is touched. -/
+theorem qselect_perm {R : Type} [Inhabited R] [LT R] [DecidableLT R] (hasym : ∀ a b : R, a < b → ¬ b < a)
+    (A : Array R) (n : Nat) (k : Int) (hn : 1 ≤ n) (hA : n ≤ A.size) (v : R) (A' : Array R)
+    (h : qselect n A k = some (v, A')) : A'.toList.Perm A.toList ∧ ∀ y, n ≤ y → A'[y]! = A[y]! := by
+  obtain ⟨v', A'', e, e2, e3⟩ := qsel_some hasym (n + 1) A 0 n (clampK n k) hn (by omega) (by omega) (clampK_lt n k hn)
+  unfold qselect at h; rw [e] at h
+  have : A'' = A' := by injection h with h; exact (Prod.mk.inj h).2
+  subst this
+  exact ⟨Array.perm_iff_toList_perm.mp e2, fun y hy => e3 y (Or.inr (by omega))⟩
+
+theorem clampK_of_lt (n k : Nat) (hk : k < n) : clampK n (k : Int) = k := by unfold clampK; omega
+
+/-- **C15 (qselect returns the element of rank k).** Over `Rat` (every finite `double`/`float` is one), for every array
+of size `n ≥ 1`, ties allowed, and every `k < n`: the value returned is entry `k` of the array sorted in DESCENDING
+order (`List.mergeSort` with `≥`), i.e. the k-th largest, zero-based; it is stored at position `k` of the permuted
+array. -/
+theorem qselect_spec (A : Array Rat) (n k : Nat) (hn : 1 ≤ n) (hA : n = A.size) (hk : k < n) (v : Rat) (A' : Array Rat)
+    (h : qselect n A (k : Int) = some (v, A')) :
+    (A.toList.mergeSort (fun a b => decide (b ≤ a)))[k]? = some v ∧ A'[k]! = v := by
+  have s0 : Split A 0 := fun a b ha => by omega
+  have sn : Split A (0 + n) := fun a b _ hb hbs => by omega
+  obtain ⟨v', A'', e, e2, e3, e4, e5⟩ := qsel_spec (n + 1) A 0 n k hn (by omega) (by omega) hk s0 sn
+  unfold qselect at h; rw [clampK_of_lt n k hk, e] at h
+  have hv : v' = v := by injection h with h; exact (Prod.mk.inj h).1
+  have hA' : A'' = A' := by injection h with h; exact (Prod.mk.inj h).2
+  subst hv; subst hA'
+  simp only [Nat.zero_add] at e3 e4 e5
+  have hsz : A''.size = A.size := e2.size_eq
+  have hg : ∀ a (h : a < A''.toList.length), A''.toList[a] = A''[a]! := by
+    intro a h
+    have h' : a < A''.size := by simpa using h
+    rw [Array.getElem_toList, getElem!_pos A'' a h']
+  refine ⟨?_, e3.symm⟩
+  apply rank_of_split A''.toList _ ((List.mergeSort_perm _ _).trans (Array.perm_iff_toList_perm.mp e2).symm) ?_ k
+    (by simp; omega) v' (by rw [hg]; exact e3.symm)
+  · intro a h hak
+    rw [hg, e3]; exact e4 a k hak (Nat.le_refl _) (by omega)
+  · intro c h hkc
+    rw [hg, e3]; exact e5 k c (by omega) (by omega) (by simpa using h)
+  · have := List.pairwise_mergeSort (le := fun a b : Rat => decide (b ≤ a))
+      (fun a b c h1 h2 => by simp only [decide_eq_true_eq] at *; exact le_trans h2 h1)
+      (fun a b => by simp only [Bool.or_eq_true, decide_eq_true_eq]; exact le_total b a) A.toList
+    exact this.imp (fun h => by simpa using h)
+
+example : qselect 6 (#[2, 7, 2, 9, 7, 1] : Array Rat) 2 = some (7, #[9, 7, 7, 2, 2, 1]) := by decide +kernel
+example := qselect_spec #[2, 7, 2, 9, 7, 1] 6 2 (by decide) rfl (by decide) 7 #[9, 7, 7, 2, 2, 1] (by decide +kernel)
+
+/-- the hypotheses are satisfiable: the IEEE-like order where one element is unordered with everything -/
+example : (qselect 7 (#[3, 1, 4, 1, 5, 9, 2] : Array Int) 2) = some (4, #[9, 5, 4, 3, 2, 1, 1]) := by decide +kernel
+example := qselect_terminates (R := Int) (fun a b h => by omega) #[3, 1, 4, 1, 5, 9, 2] 7 (-3) (by decide) (by decide)
+
+end Slu.QSelect
